@@ -689,6 +689,14 @@ def _sign(a):
     return np.sign(a)
 
 
+def _heaviside(x, h):
+    """numpy.heaviside(x, h): 0 for x < 0, h at x == 0, 1 for x > 0."""
+    if _is_sym(x) or _is_sym(h):
+        xt, ht = lift(x), lift(h)
+        return SymReal(_simp(z3.If(xt < 0, z3.RealVal(0), z3.If(xt > 0, z3.RealVal(1), ht))))
+    return np.heaviside(x, h)
+
+
 def _isnan(x):
     if _is_sym(x):
         return False
@@ -775,7 +783,7 @@ _UFUNCS = {
     np.floor: sym_floor, np.ceil: sym_ceil,
     np.conjugate: _conj, np.logical_and: _logical_and, np.logical_or: _logical_or,
     np.logical_not: _logical_not, np.reciprocal: lambda x: 1.0 / x, np.fabs: _abs,
-    np.floor_divide: _floor_divide, np.remainder: _remainder,
+    np.floor_divide: _floor_divide, np.remainder: _remainder, np.heaviside: _heaviside,
 }
 _BOOL_OUT = {np.less, np.less_equal, np.greater, np.greater_equal, np.equal, np.not_equal, np.isnan,
              np.isinf, np.isfinite, np.logical_and, np.logical_or, np.logical_not}
@@ -1647,6 +1655,18 @@ class Explorer(_BaseCtx):
         if r == z3.unsat:
             self._sample(label, f, "unsat")
             return True
+        if r == z3.unknown and z3.is_eq(fs) and fs.arg(0).sort() == z3.RealSort():
+            # sufficient condition: the cross-multiplied polynomial identity with all divisors non-zero (symgem.diff.cross_equal)
+            try:
+                from symgem.diff import cross_equal
+
+                suff = cross_equal(SymReal(fs.arg(0)), SymReal(fs.arg(1)))
+                r3, _ = self._check(z3.Not(suff))
+                if r3 == z3.unsat:
+                    self._sample(label, f, "unsat(cross-multiplied)")
+                    return True
+            except (Unsupported, z3.Z3Exception):
+                pass
         if r == z3.unknown:
             r2, m2 = self._retry_unknown(fs)
             if r2 == z3.unsat:
@@ -1771,25 +1791,39 @@ class Explorer(_BaseCtx):
                 self.stats["reach_witness"] += 1
                 if n_selftest < self.selftest_paths:
                     n_selftest += 1
-                    gm = self._generic_model()
-                    self.path_models.append(dict(decisions=list(self.trace), model=self.model_dict(gm or m),
-                                                 observed=[(lab, _eval_obs(gm or m, val)) for lab, val in self.observed]))
+                    # up to three models of this path with different "random" values: the float64 replay of one model may
+                    # legitimately leave the path (two distinct reals collapsing to one float, -0.0 ...); the self-test fails
+                    # only if every one of them disagrees
+                    alts = []
+                    for attempt in range(3):
+                        gm = self._generic_model(attempt)
+                        alts.append(dict(model=self.model_dict(gm or m),
+                                         observed=[(lab, _eval_obs(gm or m, val)) for lab, val in self.observed]))
+                    self.path_models.append(dict(decisions=list(self.trace), model=alts[0]["model"], observed=alts[0]["observed"],
+                                                 alternatives=alts[1:]))
             elif r == z3.unknown:
-                self.inconclusive.append("unknown: final path condition")
+                # every decision and assumption of this path was checked satisfiable when it was taken and the axioms added
+                # since (sqrt/exp auxiliaries) are conservative: the path is feasible by construction; only the model for the
+                # differential self-test is missing
+                self.stats["reach_witness"] += 1
+                self.stats["final_model_unknown"] = self.stats.get("final_model_unknown", 0) + 1
         return self
 
     def observe(self, label, value):
         """Record a value returned by the code under test (used by the differential self-test)."""
         self.observed.append((label, value))
 
-    def _generic_model(self):
+    def _generic_model(self, attempt=0):
         """A model of the path condition with as many variables as possible at 'random' rationals."""
         import random
 
-        rng = random.Random(self.seed * 7919 + self.stats["paths"])
+        rng = random.Random(self.seed * 7919 + self.stats["paths"] + 104729 * attempt)
         self.solver.push()
         try:
-            for name, v in self.vars.items():
+            names = list(self.vars.items())
+            if attempt:
+                rng.shuffle(names)
+            for name, v in names:
                 if not z3.is_real(v) or name.startswith("_"):
                     continue
                 val = z3.RealVal(f"{rng.randint(-40, 40)}/8")
